@@ -8,6 +8,7 @@ import (
 	"encoding/json"
 	"fmt"
 	"os"
+	"runtime"
 	"sort"
 	"testing"
 
@@ -92,6 +93,8 @@ func (r *runner) finish() {
 	c.Set("sum_alloc_measured_inputs", r.allocN)
 	c.Set("max_alloc_bytes_single_call", r.maxAlloc)
 	c.Set("max_alloc_fraction_of_bound_permille", int64(r.maxRatio*1000))
+	runtime.ReadMemStats(&ms)
+	c.Set("max_worker_sys_mib", int64(ms.Sys>>20))
 }
 
 func hash128(b []byte) (uint64, uint64) {
@@ -134,7 +137,6 @@ func (r *runner) eval(b []byte, alloc, count bool) string {
 		}
 		if f := float64(worst) / float64(AllocBound(len(b))); f > r.maxRatio {
 			r.maxRatio = f
-			r.worstHex = hex.EncodeToString(clip(b))
 		}
 		if key != "" {
 			outcome = "alloc-bound-exceeded"
@@ -503,7 +505,7 @@ func (r *runner) corpus() {
 	}
 	r.family("b:double-substitution")
 	al := MutAlphabet()
-	small := Corpus(4, 12)
+	small := Corpus(5, 12)
 	for _, s := range small {
 		buf = append(buf[:0], s.enc...)
 		for p := 0; p < len(buf); p++ {
